@@ -292,34 +292,6 @@ def check_property(w):
                  f"leakage {leak:.2e} (allowed {LEAK_MAX * k:.3f}); {k} pulse gate(s)")
 
 
-def source_flags():
-    """(swap reverses for J < 0 [C18-1], rzx area signed [C18-2]) read from the source as it is now"""
-    _, _, info = T.render()
-    return info["flips"], info["signed"]
-
-
-def default_J_negative(w):
-    """the cavity device of the witness has a negative exchange coupling for some pair (default parameters: yes)"""
-    p = w.get("params") or {}
-    eps = p.get("eps", 9.5)
-    delta = p.get("delta", 0.0)
-    w0 = p.get("w0", 10.0)
-    N = w["N"]
-    ar = lambda v: [float(x) for x in v] if isinstance(v, (list, tuple)) else [float(v)] * N
-    return any(math.sqrt(e * e + d * d) - w0 < 0 for e, d in zip(ar(eps), ar(delta)))
-
-
-def in_excluded_class(w, flags):
-    """classes of inputs that the theorems exclude explicitly for the source as it is (recorded findings)"""
-    flips, signed = flags
-    names = [g[0] for g in w["gates"]]
-    if w["dev"] == "cq" and not flips and "SQRTISWAP" in names and default_J_negative(w):
-        return True       # sqrtiswap_calibrated needs 0 < J unless the compiler reverses for J < 0
-    if w["dev"] == "scq" and not signed and any(g[0] == "RZX" and g[3] is not None and g[3] < 0 for g in w["gates"]):
-        return True       # rzx_calibrated_partial: 0 <= theta unless the area is signed
-    return False
-
-
 # ------------------------------------------------------------------------------------------
 
 ANGLES = [k * PI / 4 for k in range(-8, 9)] + [1.0, -2.5, 0.3, 6.0, -5.5, 1e-3]
@@ -354,16 +326,65 @@ class C18(PropertyCheck):
     id = "C18"
     lean_modules = ["QipVerif.Props.C18"]
     drivers = ["drv_cqed"]
-    theorems = ["QipVerif.C18." + t for t in ("tables_tie",)]
-    technique = ("Lean 4: formulas, gate maps and channel tables of the two pulse compilers and device models regenerated "
-                 "from the source with ast into functions over an abstract arithmetic (R in the theorems, IEEE doubles in "
-                 "the compiled model driver); calibration identities over C for all angles / qubits / parameters with the "
-                 "matrix exponential of the ideal effective Hamiltonians; instruction-level correspondence with the real "
-                 "compilers; the fidelity / leakage bound itself is measured on the real code, not proved")
-    level_text = ("partial")
-    level_note = ("")
-    trusted_base = ["Lean 4.33 kernel; axioms propext, Classical.choice, Quot.sound"]
-    assumptions = []
+    theorems = ["QipVerif.C18." + t for t in (
+        "tables_tie", "cq_rot_calibrated", "cq_exchange_compiled", "cq_iswap_calibrated", "cq_sqrtiswap_calibrated",
+        "cq_sqrtiswap_unreversed_wrong", "cq_phase_accumulated", "hann_envelope", "scq_rot_calibrated",
+        "zx_strength_of_pair", "scq_rzx_calibrated", "scq_rzx_unsigned_wrong", "scq_cnot_calibrated")]
+    technique = ("Lean 4: formulas, gate maps, channel tables and gate sequences of the two pulse compilers and device models "
+                 "regenerated from the source with ast into functions over an abstract arithmetic (R in the theorems, IEEE "
+                 "doubles in the compiled model driver); calibration identities over C for all angles / qubits / pairs / "
+                 "device sizes / parameters, with Mathlib's matrix exponential of the ideal effective Hamiltonians (closed "
+                 "forms proved from the power series) and interval integrals of the Hann envelope; instruction-level "
+                 "correspondence with the real compilers (bit for bit); the fidelity / leakage bound itself is MEASURED on "
+                 "the real code on sampled inputs every run, not proved")
+    level_text = ("PARTIAL. Proved (Lean 4, all inputs named in each theorem) is the calibration LOGIC of CavityQEDCompiler / "
+                  "SCQubitsCompiler / CavityQEDModel / SCQubitsModel in the IDEAL EFFECTIVE MODEL (each instruction acts by "
+                  "exp(-i * area * control Hamiltonian on the qubit subspace); the cavity-mediated exchange by the "
+                  "second-order dispersive Hamiltonian): for every angle, qubit and strength the compiled RX/RZ (cavity) and "
+                  "RX/RY (superconducting) pulse sits on the channel of the addressed qubit with that qubit's strength, the "
+                  "right sign, area and duration, and its propagator is exactly the gate; the exchange instruction holds the "
+                  "detunings and couplings of the two targets and its duration comes from J of the same quantities; exchange "
+                  "pulse + RZ corrections + reported global phase = ISWAP and = SQRTISWAP for every uniform pair at resonance "
+                  "and either sign of J (the unreversed shape before C18-1 is refuted for all J < 0); the reported global phase "
+                  "is the sum of the GLOBALPHASE angles and the correction angles; the Hann window integrates to 1, vanishes "
+                  "at both ends (its derivative, the DRAG quadrature shape, integrates to 0), the scaled envelope has the "
+                  "requested area and the samples lie on it; zx_coeff[...] read for (control, target) is the cross-resonance "
+                  "strength with the control's drive and anharmonicity for every device size; the cross-resonance pulse is "
+                  "RZX(theta) for every real theta (the unsigned shape before C18-2 is refuted); cnot_compiler's five-gate "
+                  "sequence is e^{i pi/4} CNOT for both orders of control and target. NOT proved: the bound of the property "
+                  "itself (process fidelity >= 0.999, leakage <= 0.001 of the 10-level-resonator / 3-level-transmon "
+                  "Schroedinger dynamics with sampled, spline-interpolated, DRAG-corrected pulses) - it is numerical and is "
+                  "only MEASURED each run on a seeded sample of native gates, pairs, angles and short circuits at the default "
+                  "parameters; and the validity of the effective model (rotating-wave / dispersive approximation, "
+                  "second-order elimination of the resonator, neglect of the third level).")
+    level_note = ("Trusted: Lean kernel (propext, Classical.choice, Quot.sound); the DEFINITION of the ideal effective model "
+                  "(DevExp.prop of control Hamiltonian x area; DevExp.dispH, the standard second-order dispersive Hamiltonian, "
+                  "checked numerically against the full propagator to 3e-4); py/translate/cqed.py (ast), cross-checked against "
+                  "the live compiler / model objects every run; the hand model lean/QipVerif/Model/Cqed.lean, run side by side "
+                  "with the real compilers (about 300000 numbers per quick run, more than 99.99 % bit-identical, the rest "
+                  "within 1e-9); transpilation into the native gates is C13, scheduling C05/C11, concatenation C12, the "
+                  "solver C14; the harness and the numerical oracle (scipy expm, qutip propagator).")
+    trusted_base = [
+        "Lean 4.33 kernel; axioms propext, Classical.choice, Quot.sound",
+        "the ideal effective model as a DEFINITION: propagator = matrix exponential (Mathlib NormedSpace.exp) of "
+        "(pulse area) x (control Hamiltonian restricted to the qubit subspace); the cavity-mediated exchange by the "
+        "second-order dispersive Hamiltonian DevExp.dispH (not derived in Lean; compared numerically with the full dynamics)",
+        "py/translate/cqed.py (ast extraction of formulas, gate maps, channel tables, the CNOT sequence), cross-checked "
+        "against the live objects every run",
+        "lean/QipVerif/Model/Cqed.lean (control flow of the two compilers), validated by the instruction-level "
+        "correspondence on every run; lean/Drv/Cqed.lean with IEEE doubles",
+        "C13 (transpilation to native gates), C05/C11 (scheduling), C12 (pulse concatenation), C14 (solver grid) for the "
+        "stages around the compilers",
+        "py/props/c18.py harness; numpy / scipy expm / qutip propagator in the measured fidelity oracle",
+    ]
+    assumptions = [
+        "the fidelity >= 0.999 / leakage <= 0.001 bound is measured on sampled inputs, not proved",
+        "exchange-gate theorems: uniform pair (equal detunings and couplings of the two targets) and the detuning phase "
+        "2*d*T an integer - both hold at the default parameters (-2500 / -3750 turns), and the measured fidelity collapses "
+        "when they fail (g = [0.01, 0.012]: 0.05; g = 0.02: SQRTISWAP 0.0)",
+        "hardware strengths are non-zero",
+        "superconducting compiler: default args (hann, DRAG on or off); the DRAG corrections enter only the measured part",
+    ]
     rule = ("case = (device, number of qubits, hardware parameter vectors, gate list with placements and angles, DRAG flag); "
             "distinct by canonical JSON; non-trivial = at least one instruction is compiled or the compiler refuses")
 
@@ -762,10 +783,7 @@ class C18(PropertyCheck):
 
     def oracle_search(self, ctx, budget_s):
         t0 = time.time()
-        flags = self.flags()
         for w in self._systematic():
-            if in_excluded_class(w, flags):
-                continue
             f, d = check_property(w)
             if f:
                 yield w, d
@@ -773,19 +791,16 @@ class C18(PropertyCheck):
                 return
         while time.time() - t0 < budget_s:
             w = self._rand_witness(ctx.rng)
-            if in_excluded_class(w, flags):
-                continue
             f, d = check_property(w)
             if f:
                 yield w, d
 
     def oracle_always(self, ctx):
         """the MEASURED part: fidelity / leakage of a seeded sample of native gates and short circuits at the default
-        parameters (time-budgeted); classes excluded by the theorems for the present source are skipped"""
-        flags = self.flags()
+        parameters (time-budgeted)"""
         budget = 600 if ctx.thorough else 40
         t0 = time.time()
-        allw = [w for w in self._systematic() if not in_excluded_class(w, flags)]
+        allw = list(self._systematic())
         two = [w for w in allw if len(w["gates"][0][1]) + len(w["gates"][0][2]) == 2 and w["N"] == 2]
         rest = [w for w in allw if w not in two]
         ctx.rng.shuffle(rest)
@@ -799,8 +814,6 @@ class C18(PropertyCheck):
                 yield w, d
         while time.time() - t0 < budget:
             w = self._rand_witness(ctx.rng)
-            if in_excluded_class(w, flags):
-                continue
             f, d = check_property(w)
             n += 1
             if f:
